@@ -7,7 +7,7 @@
 From Coq Require Import Sorting.Sorted Sorting.Permutation.
 From Oras Require Import Base.Prelude Generated.GC16
   Model.Scopes Model.Challenge Model.AuthClient Model.Once Model.CacheSet Model.OnceSlot Model.AuthConc Model.Redirect
-  Proofs.Scopes Proofs.ScopesIdem Proofs.AuthClient Proofs.AuthHistory Proofs.Once Proofs.CacheSet Proofs.OnceSlot Proofs.AuthConc Proofs.Redirect.
+  Proofs.Scopes Proofs.ScopesIdem Proofs.AuthClient Proofs.AuthHistory Proofs.Once Proofs.CacheSet Proofs.OnceSlot Proofs.AuthConc Proofs.Redirect Proofs.AuthOrder.
 
 (* ================= scope sets: the canonical cache key ================= *)
 
@@ -498,3 +498,28 @@ Theorem C16_redirect_token_post_refuted :
   keeps_body 307 = true /\ keeps_body 308 = true /\ keeps_body 302 = false /\ keeps_body 303 = false.
 Proof. exact token_post_resent. Qed.
 Print Assumptions C16_redirect_token_post_refuted.
+
+(* budget, outcome classification and "nothing after a failed send" for a call in ANY
+   concurrent execution: they do not depend on what the cache answers *)
+Theorem C16_concurrent_budget :
+  forall parse clean cf rq osch otok1 otok2 script,
+    let '(evs, op, r) := do_request_rd clean parse cf rq osch otok1 otok2 script in
+    (reg_sends evs <= 3)%nat /\ (fetches evs <= 1)%nat /\ outcome_ok parse cf rq evs r /\ stops_after_failure evs.
+Proof. exact do_request_rd_budget. Qed.
+Print Assumptions C16_concurrent_budget.
+
+(* ================= order of effects in the source ================= *)
+
+(* the call order inside concurrentCache.Set / store, the single-context cache's Set and
+   Client.Do, re-read from the Go source on every run, is the order the models assume *)
+Theorem C16_source_call_order :
+  calls_cc_set = [b "cc.status.LoadOrStore"; b "fetchOnce.Do"; b "fetch"; b "cc.status.Delete"; b "cc.store"] /\
+  calls_cc_store = [b "cc.cache.LoadOrStore"; b "cc.cache.Store"; b "entry.tokens.Store"] /\
+  (calls_fallback_set = [b "fc.primary.Set"; b "fc.secondary.Set"] /\
+   calls_host_set = [b "fetch"; b "cc.store"; b "c.Cache.Set"]) /\
+  calls_do = [b "c.send"; b "cache.GetScheme"; b "cache.GetToken"; b "cache.GetToken"; b "c.send";
+              b "parseChallenge"; b "cache.Set"; b "c.fetchBasicAuth"; b "CleanScopes"; b "cache.GetToken";
+              b "rewindRequestBody"; b "c.send"; b "cache.Set"; b "c.fetchBearerToken";
+              b "rewindRequestBody"; b "c.send"].
+Proof. exact (conj cc_set_order (conj cc_store_order (conj fallback_set_order do_order))). Qed.
+Print Assumptions C16_source_call_order.
